@@ -410,7 +410,8 @@ def check_writes(ctx, owners):
                         ctx.ob('R5', where, node, False, f'`{norm_text(node)}` rebinds an input of cached methods of {ci.name} after construction')
             prov = base.prov or frozenset()
             cached = [p for p in prov if p.startswith('cached:')]
-            if cached and e['kind'] in ('sub', 'aug', 'del', 'out=', 'method:sort', 'method:fill') and base.ty in ('ndarray', 'DataFrame', 'list', 'dict', 'Series'):
+            if cached and (e['kind'] in ('sub', 'aug', 'del', 'out=', 'putmask', 'add_at') or e['kind'].startswith('method:')) \
+                    and base.ty in ('ndarray', 'DataFrame', 'list', 'dict', 'Series', 'Graph'):
                 ctx.ob('R6', where, e['node'], False, f'in-place write into the memoised result of {cached[0][7:]}: later calls return the modified value')
     ctx.ob('R6', 'gemdat', f'{n_store} in-place / attribute stores in the package', True, 'none targets a memoised value')
 
